@@ -18,7 +18,7 @@ MANIFEST = {
             '(which needs the semantics of every body) is not decided. ' 
             '(R-SURR) every surrogate-class test on the decoder side (UTF-16 decoder bodies, the copy_utf16_from fast paths including the hold-back of a trailing high surrogate at a chunk or output boundary, convert_unaligned_utf16_to_utf8) denotes exactly D800-DBFF, DC00-DFFF or D800-DFFF, so a pair is never split differently depending on where the chunk or the output ends. ' 
             '(R-PENDCOUNT) for the two decoders that keep an unfinished sequence in an enum (EUC-JP, gb18030), Pending::count() — reported as the malformed length when the stream ends there — agrees with the bytes actually taken: on every path from a loop head to `return InputEmpty` that stores a non-None variant, count(variant) minus the number of byte reads on the path is the same for all variants (the byte already in hand at that head). ' 
-            '(R-REQUEUE) on every path that ends in Malformed(len, after) with after > 0 (gb18030: 8 paths, resume and in-loop) the bytes of the current sequence are ordered chronologically (payload of the matched pending variant, byte in hand, reads minus unread) and every value stored into a state field derives only from the `after` re-queued bytes, never from the malformed ones, and each re-queued byte reaches a state field.',
+            '(R-REQUEUE) on every path that ends in Malformed(len, after) with after > 0 (gb18030: 8 paths, resume and in-loop) the bytes of the current sequence are ordered chronologically (payload of the matched pending variant, byte in hand, reads minus unread) and every value stored into a state field derives only from the `after` re-queued bytes, never from the malformed ones, and each re-queued byte reaches a state field. (R-ASCIICOPY) the ASCII fast-path helpers of the handles (copy_ascii_from/to_check_space_*) advance the source and the destination position in step by what the ASCII kernel consumed, add only the units of the non-ASCII character on the source side and nothing on a path that stops, and report with Stop the source position itself and the destination position.',
     'note': 'Trusted: rustc MIR, mirx, rule library; the frozen tables of deferred-output and pending-input fields (confirmed by reading).',
     'technique': 'MIR dataflow (may-analysis), control-dependence taint rule, bounded path summaries, sibling-expansion comparison',
 }
